@@ -18,7 +18,7 @@ import (
 	"strings"
 )
 
-func (p *pkgInfo) funcDecl(name string) *ast.FuncDecl {
+func (p *pkgInfo) topFunc(name string) *ast.FuncDecl {
 	for _, f := range p.files {
 		for _, d := range f.Decls {
 			if fd, ok := d.(*ast.FuncDecl); ok && fd.Recv == nil && fd.Name.Name == name {
@@ -64,7 +64,7 @@ func exprName(e ast.Expr) string {
 	return ""
 }
 
-func (p *pkgInfo) intConst(e ast.Expr) (int64, bool) {
+func (p *pkgInfo) intConst64(e ast.Expr) (int64, bool) {
 	tv, ok := p.info.Types[e]
 	if !ok || tv.Value == nil || tv.Value.Kind() != constant.Int {
 		return 0, false
@@ -105,7 +105,7 @@ func (p *pkgInfo) mapLitKeys(n ast.Node) (keys []string, code string) {
 			if k, ok := p.strConst(kv.Key); ok {
 				keys = append(keys, k)
 				if k == "code" {
-					if v, ok := p.intConst(kv.Value); ok {
+					if v, ok := p.intConst64(kv.Value); ok {
 						code = fmt.Sprintf("some (%d : Int)", v)
 					}
 				}
@@ -139,7 +139,7 @@ func contentTypeSets(n ast.Node) []string {
 func init() {
 	facts["http"] = func(p *pkgInfo, w *bytes.Buffer) error {
 		// ---- Error(): dispatch order -------------------------------------------------
-		fe := p.funcDecl("Error")
+		fe := p.topFunc("Error")
 		if fe == nil || fe.Body == nil {
 			return fmt.Errorf("func Error not found")
 		}
@@ -175,7 +175,7 @@ func init() {
 			switch s := x.(type) {
 			case *ast.AssignStmt:
 				if len(s.Lhs) == 1 && len(s.Rhs) == 1 && exprName(s.Lhs[0]) == "status" && s.Tok == token.DEFINE {
-					if v, ok := p.intConst(s.Rhs[0]); ok {
+					if v, ok := p.intConst64(s.Rhs[0]); ok {
 						defStatus = v
 					}
 				}
@@ -200,7 +200,7 @@ func init() {
 		fmt.Fprintf(w, "/-- `Header().Set(\"Content-Type\", …)` calls in the plain branch (before `http.Error`, which replaces it). -/\ndef plainContentTypeSets : List String := [%s]\n", quoteAll(contentTypeSets(plain)))
 
 		// ---- jsonHandler: content types, callback parameter, status source -------------
-		jh := p.funcDecl("jsonHandler")
+		jh := p.topFunc("jsonHandler")
 		if jh == nil {
 			return fmt.Errorf("func jsonHandler not found")
 		}
@@ -292,7 +292,7 @@ func init() {
 		fmt.Fprintf(w, "/-- `SystemComplexError`: JSON names of the fields (declaration order). -/\ndef cplxErrorKeys : List String := [%s]\n", quoteAll(tags))
 
 		// ---- client ------------------------------------------------------------------
-		ap := p.funcDecl("apiParse")
+		ap := p.topFunc("apiParse")
 		if ap == nil {
 			return fmt.Errorf("func apiParse not found")
 		}
@@ -310,7 +310,7 @@ func init() {
 		}
 		fmt.Fprintf(w, "/-- `apiParse`: the keys it looks up in the decoded object (source order). -/\ndef clientKeys : List String := [%s]\n", quoteAll(idxKeys))
 
-		ar := p.funcDecl("ApiRequest")
+		ar := p.topFunc("ApiRequest")
 		if ar == nil {
 			return fmt.Errorf("func ApiRequest not found")
 		}
@@ -338,8 +338,8 @@ func init() {
 			if !ok1 || !ok2 || l.Op != token.LSS || r.Op != token.GEQ || exprName(l.X) != "status" || exprName(r.X) != "status" {
 				continue
 			}
-			a, oka := p.intConst(l.Y)
-			b, okb := p.intConst(r.Y)
+			a, oka := p.intConst64(l.Y)
+			b, okb := p.intConst64(r.Y)
 			returns := false
 			for _, b := range ifs.Body.List {
 				if _, ok := b.(*ast.ReturnStmt); ok {
